@@ -132,6 +132,26 @@ def crossMatch (eps : List Endpoint) : Bool :=
 /-- F13c: some declared pattern follows the URL across the host/path boundary. -/
 def boundaryMix (eps : List Endpoint) (u : Url) : Bool := eps.any fun e => !flagsOK e.parts u
 
+/-- `flagsOK` without the `*` clause: since fixes/F13c-wildcard.patch a wildcard child is a fallback only for a URL
+    part on its own side of the host/path boundary, so a `*` no longer carries a pattern across the boundary; what
+    is left of F13c is the literal/parameter half (trie children keyed by value only). -/
+def flagsOKlp : Pattern → Url → Bool
+  | [], _ => true
+  | _ :: _, [] => true
+  | p :: ps, u :: us =>
+    match p.seg with
+    | .wild => true
+    | .lit s => if u.seg == .lit s then u.host == p.host && flagsOKlp ps us else true
+    | .par _ => u.host == p.host && flagsOKlp ps us
+
+/-- F13c as the JUDGE classifies it (literal/parameter half only).  It is narrower than the hypothesis
+    `boundaryMix` of the `_partial` theorems (`boundaryMix = false` implies `boundaryMixLP = false`, not the
+    converse): where only a `*` sits on the other side of the boundary the judge demands the property of the
+    implementation although no theorem is proved there yet — stricter, never masking. -/
+def boundaryMixLP (eps : List Endpoint) (u : Url) : Bool := eps.any fun e => !flagsOKlp e.parts u
+
+def cfgBoundaryMixLP (eps : List Endpoint) : Bool := eps.any fun e => boundaryMixLP eps e.parts
+
 /-- F13c among the declarations themselves: a declared pattern follows another declared URL across `/`. -/
 def cfgBoundaryMix (eps : List Endpoint) : Bool := eps.any fun e => boundaryMix eps e.parts
 
@@ -269,7 +289,7 @@ def roundsAgree (r1 r2 : Round) : Bool :=
 /-! ### verdicts (used by the judge) -/
 
 def classifyReq (eps : List Endpoint) (u : Url) : String :=
-  if boundaryMix eps u then "F13c" else "-"
+  if boundaryMixLP eps u then "F13c" else "-"
 
 def classifyNorm (eps : List Endpoint) (u : Url) : String := classifyReq eps u
 
@@ -311,6 +331,8 @@ def authVerdicts (g0 : Globals) (r : Round) : List Verdict :=
       s!"credentials-of-an-unentitled-remedy {a.method} {a.url} keys={String.intercalate "," a.keys}"⟩
 
 def classifyOrder (eps : List Endpoint) : String :=
+  -- two `*` patterns that differ only in the side of the boundary still share ONE wildcard node (last wins):
+  -- among the declarations the `*` clause stays part of the class
   if cfgBoundaryMix eps then "F13c" else "-"
 
 def orderVerdicts : List Round → List Verdict
@@ -341,7 +363,7 @@ def trieVerdicts (ins : List (List Part × Nat)) (looks : List (List Part × Loo
   looks.filterMap fun (u, a) =>
     if trieSoundOk ins u a then none
     else
-      let cls := if ins.any (fun e => !flagsOK e.1 u) then "F13c" else "-"
+      let cls := if ins.any (fun e => !flagsOKlp e.1 u) then "F13c" else "-"
       some ⟨cls, s!"trie-lookup-unsound v={a.value.getD 0} norm={a.norm}"⟩
 
 end LunarVerif.C13
